@@ -194,7 +194,9 @@ def op_lines(rng, quick):
                 ["nil", "l:1", "l:0", "c:49", "P", "A{}", "C{i:1}", "v:%s/%s/%s" % (fbits(1.0), fbits(0.0), fbits(0.0))])
     for k in KINDS:
         for a in pool(k):
-            idxs = idx_pool if not quick else rng.sample(idx_pool, 6)
+            # the integer indices around every container's bounds (0..4, -1) are always tried: an off-by-one in a
+            # bound check needs exactly one of them (seeded C04-ind-1: `index > 3` for a vector read)
+            idxs = idx_pool if not quick else idx_pool[:6] + rng.sample(idx_pool[6:], 4)
             for i in idxs:
                 if collides(a, i):
                     continue
